@@ -25,6 +25,26 @@ use std::fmt;
 use std::path::PathBuf;
 use std::sync::Arc;
 
+/// Type of an aggregate input over the batches the Parquet source produces.
+///
+/// The file schema is UNQUALIFIED, so `PlanSchema` does not resolve a
+/// table-qualified reference (`SUM(r.c)`), and the old `unwrap_or(Float64)`
+/// then typed an integer column as Float64: the dense path failed with
+/// "expected Float64" and the generic path summed the column to NULL.
+/// `evaluate_expr` resolves names exactly the way execution will, so when the
+/// plan-schema lookup misses, ask it — on an empty batch — what it produces.
+fn agg_input_type(
+    expr: &Expr,
+    plan_schema: &crate::planner::PlanSchema,
+    source_schema: &SchemaRef,
+) -> Option<DataType> {
+    expr.data_type(plan_schema).ok().or_else(|| {
+        evaluate_expr(&RecordBatch::new_empty(source_schema.clone()), expr)
+            .ok()
+            .map(|a| a.data_type().clone())
+    })
+}
+
 /// Morsel-driven aggregate execution operator
 ///
 /// This operator is used for aggregations over Parquet data sources.
@@ -168,7 +188,10 @@ impl PhysicalOperator for MorselAggregateExec {
         let input_types: Vec<DataType> = self
             .aggregates
             .iter()
-            .map(|a| a.input.data_type(&plan_schema).unwrap_or(DataType::Float64))
+            .map(|a| {
+                agg_input_type(&a.input, &plan_schema, &source.schema())
+                    .unwrap_or(DataType::Float64)
+            })
             .collect();
 
         // One worker per row group at most: after pruning, a selective scan can
@@ -435,7 +458,12 @@ impl MorselAggregateExec {
                     e => kinds.push((DenseAgg::Count, Some(e.clone()))),
                 },
                 AggregateFunction::Sum | AggregateFunction::Avg => {
-                    let dt = a.input.data_type(&plan_schema).unwrap_or(DataType::Float64);
+                    // An input whose type cannot be determined declines to the
+                    // generic path rather than being assumed Float64.
+                    let Some(dt) = agg_input_type(&a.input, &plan_schema, &self.input_schema)
+                    else {
+                        return Ok(None);
+                    };
                     let k = match (&a.func, &dt) {
                         (AggregateFunction::Sum, DataType::Float64) => DenseAgg::SumF64,
                         (AggregateFunction::Sum, DataType::Int64) => DenseAgg::SumI64,
